@@ -51,7 +51,8 @@ PROFILE = {
     "thorough": dict(examples=120000, shards=16, budget_s=900),
 }
 
-FLOAT_POOL = [0.0, 1.0, 2.0, 3.0, -1.0, 2.5, 10.0, 20.0, 30.0, 99.0, 0.5]
+FLOAT_POOL = [0.0, 1.0, 2.0, 3.0, -1.0, 2.5, 10.0, 20.0, 30.0, 99.0, 0.5,
+              float("inf"), float("-inf")]
 INT_POOL = [0, 1, 2, 3, -1, 10, 20, 30, 99, -2]
 STR_POOL = ["a", "b", "c", "ab", "zz", "z", "", "A", "None", "nan", "0",
             "-1", "a ", "zzz", "ü"]
